@@ -11,13 +11,11 @@ Definition nested_pre : list event :=
   [ECall 4 (RSubmit 7) 0; ERecv true 4 0; EEmit false 1 8; ERecv false 1 0; EEmit false 2 8;
    ECall 4 (RResult 7) 0; ERecv true 4 0].
 (* server reads EOF of manager 1 and shuts down; manager 2 reads the queued message, then EOF from
-   above (only closes that connection); the client reads EOF and raises *)
+   above: it has lost its boss and shuts down (before repo commit ddab951 it only closed that connection
+   and survived with its worker: this run was the refutation witness); worker 3 reads SHUTDOWN and
+   dies; the client reads EOF and raises *)
 Definition nested_post : list event :=
-  [ERecv true 1 0; ERecv false 2 0; ERecv false 2 0; ERecv false 4 1].
-
-Definition crash_propagates_full : Prop := forall T attached out, wf_topo T = true -> forall s n s1 es s2,
-  reach T attached out s -> step T attached out s (ECrash n) = Some s1 ->
-  run T attached out s1 es = Some s2 -> quiescent T attached s2 = true -> all_down T s2 = true.
+  [ERecv true 1 0; ERecv false 2 0; ERecv false 2 0; ERecv false 3 0; ERecv false 4 1].
 
 Lemma run_app_inv : forall T a o x y s s2, run T a o s (x ++ y) = Some s2 ->
   exists s1, run T a o s x = Some s1 /\ run T a o s1 y = Some s2.
@@ -34,15 +32,15 @@ Proof. intros A f r v H. destruct r as [s|]; simpl in H; [|discriminate H]. inve
 Lemma nested_obs :
   option_map (fun s => (quiescent nested_T false s, all_down nested_T s, alive s 2, alive s 3, cend s 2, outcomes s 4))
     (run nested_T false S (init nested_T 10) (nested_pre ++ [ECrash 1] ++ nested_post))
-  = Some (true, false, true, true, false, [ORaised; OSubmitted 7]).
+  = Some (true, true, false, false, false, [ORaised; OSubmitted 7]).
 Proof. vm_compute. reflexivity. Qed.
 
 Lemma nested_run : exists s s1 s2,
   run nested_T false S (init nested_T 10) nested_pre = Some s /\
   step nested_T false S s (ECrash 1) = Some s1 /\
   run nested_T false S s1 nested_post = Some s2 /\
-  quiescent nested_T false s2 = true /\ all_down nested_T s2 = false /\
-  alive s2 2 = true /\ alive s2 3 = true /\ cend s2 2 = false /\
+  quiescent nested_T false s2 = true /\ all_down nested_T s2 = true /\
+  alive s2 2 = false /\ alive s2 3 = false /\ cend s2 2 = false /\
   outcomes s2 4 = [ORaised; OSubmitted 7].
 Proof. destruct (obs_elim _ _ _ _ nested_obs) as [s2 [E O]]. cbv beta in O.
   apply run_app_inv in E. destruct E as [s [E1 E]]. apply run_app_inv in E. destruct E as [s1 [E2 E3]].
@@ -50,15 +48,8 @@ Proof. destruct (obs_elim _ _ _ _ nested_obs) as [s2 [E O]]. cbv beta in O.
   exists s, s1, s2. repeat split; assumption.
 Qed.
 
-Lemma reach_of_run : forall T a o b es s, forallb (good_event T) es = true ->
-  run T a o (init T b) es = Some s -> reach T a o s.
+Lemma reach_of_run : forall T a o b es s, run T a o (init T b) es = Some s -> reach T a o s.
 Proof. intros. eapply reach_run; eauto. apply reach_init. Qed.
-
-Lemma nested_refutes : ~ crash_propagates_full.
-Proof. intros F. destruct nested_run as [s [s1 [s2 [A [B [C [Q [D _]]]]]]]].
-  assert (R : reach nested_T false S s) by (eapply reach_of_run; eauto; reflexivity).
-  rewrite (F nested_T false S eq_refl s 1 s1 nested_post s2 R B C Q) in D. discriminate.
-Qed.
 
 (* ---- flat detached topology: server 0; manager 1 with workers 2,3; manager 4 with worker 5; clients 6,7 -- *)
 Definition ex_T : list (kind * nat) :=
@@ -85,21 +76,20 @@ Lemma ex_obs1 :
 Proof. vm_compute. reflexivity. Qed.
 
 Lemma ex_crash :
-  wf_topo ex_T = true /\ good_crash ex_T 2 = true /\
+  wf_topo ex_T = true /\
   exists s s1 s2, run ex_T false S (init ex_T 10) ex_pre = Some s /\ reach ex_T false S s /\
     step ex_T false S s (ECrash 2) = Some s1 /\ run ex_T false S s1 ex_post = Some s2 /\
-    forallb (good_event ex_T) ex_post = true /\
     quiescent ex_T false s2 = true /\ all_down ex_T s2 = true /\
     blocked s1 6 = Some (RResult 7) /\ outcomes s2 6 = [ORaised; OSubmitted 7] /\
     outcomes s2 7 = [ORaised; OSubmitted 9] /\ count_recv ex_post = 6 /\ variant ex_T s1 = 143.
-Proof. split. reflexivity. split. reflexivity.
+Proof. split. reflexivity.
   destruct (obs_elim _ _ _ _ ex_obs) as [s2 [E O]]. cbv beta in O.
   destruct (obs_elim _ _ _ _ ex_obs1) as [s1' [F O']]. cbv beta in O'.
   apply run_app_inv in E. destruct E as [s [E1 E]]. apply run_app_inv in E. destruct E as [s1 [E2 E3]].
   apply run_app_inv in F. destruct F as [s' [F1 F2]]. rewrite E1 in F1. inversion F1; subst s'.
   rewrite E2 in F2. inversion F2; subst s1'. apply run_one in E2.
   injection O as O1 O2 O3 O4. injection O' as P1 P2.
-  exists s, s1, s2. split; [assumption|]. split; [eapply reach_of_run; [|eassumption]; reflexivity|].
+  exists s, s1, s2. split; [assumption|]. split; [eapply reach_of_run; eassumption|].
   repeat split; try assumption; reflexivity.
 Qed.
 
@@ -112,5 +102,5 @@ Lemma ex_result :
   exists s, reach ex_T false S s /\ outcomes s 6 = [OResult 7 1; OSubmitted 7] /\
             owns s = [(6, 7, 0)] /\ fin s = [0].
 Proof. destruct (obs_elim _ _ _ _ ex_result_obs) as [s [E O]]. cbv beta in O. injection O as O1 O2 O3.
-  exists s. split. eapply reach_of_run; [|eassumption]; reflexivity. repeat split; assumption.
+  exists s. split. eapply reach_of_run; eassumption. repeat split; assumption.
 Qed.
